@@ -1,2 +1,3 @@
 import GlotaranProofs.Props.C19
 import GlotaranProofs.Props.C02
+import GlotaranProofs.Props.C03
